@@ -185,6 +185,51 @@ def run(chk):
 
     chk.oracle('value_denotation', conv, o_value, nontrivial_fn=lambda t: bool(INT_RE.match(t) or FLT_RE.match(t)))
 
+    # ------------------------------------------------------------------ surface-syntax trees: Lean render/denote vs Python twin vs real parse
+    tg = L.TreeGen(rng, chk)
+    trees = [tg.tree() for _ in range(1200 if quick else 30000)]
+    chk.correspond('ast_render', DRV, trees, lambda t: 'ast_render\t' + L.wire_tree(t), lambda t: 'S' + esc(L.tree_render(t)),
+                   nontrivial_fn=lambda t, im: '%' in im)
+    chk.correspond('ast_denote', DRV, trees, lambda t: 'ast_denote\t' + L.wire_tree(t), lambda t: L.dump_any(L.tree_denote(t)),
+                   compare=L.same_reply, nontrivial_fn=lambda t, im: 'L' in im or 'D' in im or 'V' in im)
+    wfbits = chk.driver(DRV, ['ast_wf\t' + L.wire_tree(t) for t in trees])
+    chk.count('trees well-formed (Lean wf)', sum(1 for b in wfbits if b[:1] == '1'))
+    chk.count('trees grammatical (Lean)', sum(1 for b in wfbits if b == '11'))
+    tree_wf = {L.wire_tree(t): b for t, b in zip(trees, wfbits)}
+
+    def o_tree(t):
+        """the real parser on the text of a tree gives what the tree denotes (Python twin of Spec/ProForma.lean `denote`)"""
+        if tree_wf[L.wire_tree(t)][:1] != '1':
+            return 'generated tree is not well-formed for the Lean predicate SText.wf: ' + L.wire_tree(t)
+        text = L.tree_render(t)
+        got = L.with_alarm(lambda: pt.parse(text))
+        exp = L.tree_denote(t)
+        if L.dump_any(got) != L.dump_any(exp):
+            return f'parse({text!r}) = {L.dump_any(got)} but the tree denotes {L.dump_any(exp)}'
+        if not (got == exp):
+            return f'parse({text!r}) is not == to what the tree denotes'
+        return None
+
+    chk.oracle('parse_vs_tree_denotation', trees, o_tree, key_fn=L.wire_tree,
+               nontrivial_fn=lambda t: any(ch['start'] or ch['cterm'] or ch['charge'] for _, ch in t))
+
+    # ------------------------------------------------------------------ every ACCEPTED string survives serialize/parse (since fix 0b351bb)
+    import itertools
+    SMALL = ['P', '[', ']', '(', ')', '{', '}', '<', '>', '?', '-', '+', '/', '^', '@', '1', '0', 'a', '.']
+    depth = 4 if quick else 5
+    acc_strings = []
+    for k in range(1, depth + 1):
+        for tup in itertools.product(SMALL, repeat=k):
+            s0 = ''.join(tup)
+            try:
+                pt.parse(s0)
+            except Exception:  # noqa
+                continue
+            acc_strings.append(s0)
+    chk.count('accepted strings (exhaustive, small alphabet)', len(acc_strings))
+    gram = chk.driver(DRV, ['gram\t' + esc(s0) for s0 in acc_strings])
+    chk.count('of these grammatical (Lean grammaticalString)', sum(1 for g in gram if g == '1'))
+
     # ------------------------------------------------------------------ oracle 1: expected structure
     def o_expected(c):
         t, expd, style, k, xl = c
@@ -239,6 +284,9 @@ def run(chk):
     chk.count('mutated accepted canonical', len(can_strings))
     chk.oracle('roundtrip_canonical_mutants', can_strings, o_roundtrip,
                nontrivial_fn=lambda s: any(ch in s for ch in '[{<(/+'))
+    # ... and so must every accepted string, canonical or not (the accepted-garbage classes are rejected since 0b351bb)
+    chk.oracle('roundtrip_every_accepted_string', acc_strings + [s for s, _ in acc], o_roundtrip,
+               nontrivial_fn=lambda s: any(ch in s for ch in '[{<(/+'))
     # generator output is canonical (ties the generator's grammar to the Lean predicate)
     gcan = chk.driver(DRV, ['canon\t' + c[1] for c in cases])
     gen_by_text = {}
@@ -287,7 +335,7 @@ def run(chk):
 def classify(f):
     """the only known finding: a chain joined by // serializes to two backslashes, which the parser rejects"""
     pt = L._mods()[0]
-    if f['oracle'] in ('roundtrip', 'roundtrip_canonical_mutants'):
+    if f['oracle'] in ('roundtrip', 'roundtrip_canonical_mutants', 'roundtrip_every_accepted_string'):
         s = f['case']
         if isinstance(s, str) and '//' in s and 'does not parse' in f['detail'] and '\\\\' in f['detail']:
             try:
